@@ -305,6 +305,31 @@ def wrapper_unit(ctx, src):
 FD_FLAGS = ['OFFSET_8_BITS', 'OFFSET_16_BITS', 'OFFSET_32_BITS', 'OFFSET_64_BITS']
 
 
+def ascii_unit(ctx, src):
+    """hex dump: the ASCII column block of format_data's line lambda, cut out verbatim (write_data and the terminal guards are models)"""
+    u = Unit(ctx, 'fd_ascii')
+    u.raw('#include "contracts/C09_ascii.h"\n')
+    ftext = src.text(CC)
+    import re as _re
+    from vf import lex as _lex
+    m = _lex.mask(ftext)
+    mo = _re.search(r'\bif \(print_ascii\) \{', m)
+    if not mo or len(_re.findall(r'\bif \(print_ascii\) \{', m)) != 1:
+        raise ExtractionBreak('format_data: the block `if (print_ascii) {` was not found exactly once')
+    e = _lex.match_close(m, mo.end() - 1)
+    block = ftext[mo.start():e + 1]
+    hdr = ('void fd_ascii_column(const uint8_t* line_buf, const uint8_t* prev_line_data, uint8_t line_invalid_start_bytes, uint8_t line_invalid_end_bytes, '
+           '_Bool use_color, _Bool skip_separator, _Bool print_ascii)')
+    body = '{\n' + block + '\n}'
+    rules = [Rule(r'\bwrite_data\(', 'c09_write_data(', regex=True, count='+'),
+             Rule(r'\b(?:RedBold|Inverse)TerminalGuard \w+\((?:c09_)?write_data, ([^;]*)\);', r'c09_guard(\1);', regex=True, count=None)]
+    body = u._post(body, CC + ':format_data ASCII column', rules, True, None, None, None)
+    u.functions.append({'file': CC, 'cxx_header': 'format_data :: line lambda :: if (print_ascii) { ... }', 'c_header': hdr, 'line': ftext.count('\n', 0, mo.start()) + 1})
+    u.parts.append(hdr + '\n' + body + '\n')
+    u.write()
+    return u
+
+
 def lines_unit(ctx, src):
     """hex dump: the line loop of format_data (header + geometry statements + width selection + interior test), assembled from
     snippets of the current text; the rest of the loop body is not represented"""
@@ -393,7 +418,8 @@ def plan(ctx):
     ufs = fstep_unit(ctx, src)
     uw = wrapper_unit(ctx, src)
     ul = lines_unit(ctx, src)
-    ctx.functions_under_contract = up.functions + usk.functions + us.functions + uf.functions + ufs.functions + uw.functions + ul.functions
+    ua = ascii_unit(ctx, src)
+    ctx.functions_under_contract = up.functions + usk.functions + us.functions + uf.functions + ufs.functions + uw.functions + ul.functions + ua.functions
     groups = []
     RT = lambda mode: Replay(driver='C09/datastring.cc', mode=mode, sources=ALL_LIB)
     for mn, d in (('mask', []), ('nomask', ['MASK_NULL'])):
@@ -417,6 +443,11 @@ def plan(ctx):
                         enforce='fd_line_loop', loops=True, kind='loop-contract', timeout=600, min_post=2, replay=HD))
     groups.append(Group(name='format_data.line_geometry', harness='harness/C09/lines.c', entry='h_line', function='format_data (geometry statements of a line)',
                         enforce='fd_line', timeout=600, min_post=8, replay=HD))
+    groups.append(Group(name='format_data.ascii_column', harness='harness/C09/ascii.c', entry='h_ascii_column', function='format_data (ASCII column of a line)',
+                        enforce='fd_ascii_column', kind='unwound-constant-loops', bound='the three loops run over the 16 cells of a line: unwound completely (unwinding assertions on)',
+                        cbmc_flags=['--unwind', '18', '--unwinding-assertions'], timeout=300, min_post=2,
+                        clause_note='contracts/C09_ascii.h: separator + 16 cells; a cell is the byte itself iff it lies in the dumped range and is printable ASCII (0x20..0x7E), else a blank (colour off)',
+                        replay=Replay(driver='C09/datastring.cc', mode='ascii_column', sources=ALL_LIB)))
     SIM = 'harness/C09/sim.c'
     for entry, name, fn, mode in [('l_sim_quoted', 'roundtrip.step[quoted]', 'format_data_string quoted-form loop body / parse_data_string loop body', 'sim_quoted'),
                                   ('l_sim_hex', 'roundtrip.step[hex]', 'format_data_string hex-form loop body / parse_data_string loop body', 'sim_hex'),
